@@ -45,6 +45,20 @@ re-targeted to another option, inversion changed), in one rename file or with th
 Own alias table = last mapping of each deprecated name (load_rename_files docstring: "the last mapping is used"), all
 other names unaffected.  Each table runs one fixed history (fresh instance per sync) in which each target appears, changes,
 is removed from the tree and comes back, with the crash-free oracle above.
+
+Value TEXT dimension (non-bool options whose value text looks like a tristate).  `n` means "absent" for a bool only: a string
+option whose value is the text `n` (a parity / end-of-line selector), `y`, `m` or the empty string has a #define line like any
+other string, so it appears / disappears / changes like any other.  Two places explore it:
+  * the main trees carry T (string, default "n", depends on B, deprecated alias OLD_T; removed by tree version rm_alias), so
+    that families (1)-(3) see it appear at a first sync, appear / disappear through its dependency (fresh and live
+    instance), be removed / re-added by a tree version, and be the target of rename tables (4th table target);
+  * a second world ("text": options G, T, K; tree versions with / without T) whose states are: T not in the tree, T hidden by
+    G, T visible with the text n / y / "" / x (thorough: also m, and T removed while G is off) -- ALL histories of length 3
+    (thorough also 4) over these states, with every crash point, exactly as family (1); and all one-instance sessions of 3 syncs
+    over {n, hidden, y, ""} as family (2), so every ordered pair (absent | hidden | each text) -> (absent | hidden | each text) is
+    a first sync, a later sync of a new process, a rerun after a crash and a sync of a live instance.
+The oracle is unchanged (the #define map decides what changed); the signature of a finding on a string option names the
+tristate-looking text involved (key `text`).
 """
 
 from __future__ import annotations
@@ -60,7 +74,9 @@ ID = "C12"
 LEVEL = "fault_enumeration"
 RULE = (
     "(1) all histories over states = (tree version, configuration): quick 14 states (2 trees x 7 configurations) ^ 3; thorough 26 states "
-    "(6 trees) ^ 3 plus 10 states ^ 4; one fresh Kconfig per sync; crash-free run of every history, then for every "
+    "(6 trees) ^ 3 plus 10 states ^ 4; and in the `text` world (string option T whose value text is a tristate look-alike) quick 6 states "
+    "(T absent from the tree, hidden by its dependency, visible as n / y / empty / x) ^ 3, thorough 8 states (also m, absent+dependency off) ^ 3 "
+    "plus 5 states ^ 4; one fresh Kconfig per sync; crash-free run of every history, then for every "
     "sync every crash point (before each mutating FS operation: mkdir per level, truncating touch, open(auto.conf,'w'); inside "
     "the auto.conf write at 0 / every line boundary / middle of last line / all-but-one byte), each on a fresh copy of the "
     "pre-state: crash, rerun, repeat, continue the history. State merging: a crash in sync i and its recovery depend only on the "
@@ -70,9 +86,9 @@ RULE = (
     "(2) sessions, crash-free: all sequences of 3 syncs (thorough also 4) in which every step after the first chooses {same instance, new "
     "instance of a tree version} x configuration x {directory 0, directory 1} x {kept, auto.conf deleted, emptied, removed} (a "
     "directory that does not exist is new); quick 1 tree x 4 configurations, thorough 2 trees x 7 configurations ^ 3 "
-    "plus 1 tree x 3 configurations ^ 4; one work item per (first, second) step, every session re-executed from its first step "
+    "plus 1 tree x 3 configurations ^ 4; text world: quick 1 tree x {n, hidden, y, empty}, thorough 2 trees (with / without T) x 6 configurations, 3 syncs; one work item per (first, second) step, every session re-executed from its first step "
     "(counter session_syncs). (3) rename tables, crash-free: every sequence of 1..3 (thorough 1..4) rename lines over 3 deprecated names "
-    "(up to renaming: in order of first use) x 3 targets (bool, inverted bool, int), as one file and -- if a name is mapped again -- "
+    "(up to renaming: in order of first use) x 4 targets (bool, inverted bool, int, dependent string whose text is n), as one file and -- if a name is mapped again -- "
     "split into two files at the re-mapping, each under one 5-sync history (target appears / changes / is removed from the tree / "
     "comes back; counter rename_table_runs). "
     "evaluations = executed (prefix, crash point) pairs + crash-free histories + executed continuations + sessions + rename-table "
@@ -90,6 +106,9 @@ ASSUMPTIONS = [
     "configurations are entered with Symbol.set_value on a fresh instance; in families (1) and (3) every sync (also the rerun after a "
     "crash) is a new instance; in a session the one instance is moved to the next configuration with unset_value / set_value and "
     "the expected #define map is read from a twin instance taken through the same calls",
+    "value texts: only a bool's n is 'absent'; a string option whose text is n / y / m / empty has a build-visible value (its #define line) "
+    "like any other string, so it appears, disappears and changes; int / hex options cannot hold such texts (set_value refuses them) and "
+    "are not generated with them",
     "sessions: 'value recorded by the last completed sync' is per dependency directory and is what its auto.conf holds: after "
     "auto.conf was deleted / the directory emptied or removed, and for a new directory, nothing is recorded, so every option "
     "with a build-visible value (and its aliases) must be touched, exactly as for a first sync; sessions are not crash-injected",
@@ -106,8 +125,12 @@ RENAMES = (
     "CONFIG_OLD_I !CONFIG_NEWI\n"
     "CONFIG_OLDM CONFIG_M\n"
     "CONFIG_OLD_ADDED CONFIG_ADDED\n"
+    "CONFIG_OLD_T CONFIG_T\n"
 )
-ALIASES = {"OLDP": ("NEWP", False), "OLD_I": ("NEWI", True), "OLDM": ("M", False), "OLD_ADDED": ("ADDED", False)}
+ALIASES = {"OLDP": ("NEWP", False), "OLD_I": ("NEWI", True), "OLDM": ("M", False), "OLD_ADDED": ("ADDED", False), "OLD_T": ("T", False)}
+# the `text` world: one string option whose value text looks like a tristate
+RENAMES_TEXT = "CONFIG_OLD_T CONFIG_T\n"
+ALIASES_TEXT = {"OLD_T": ("T", False)}
 
 _OPTS = {
     "FOO_BAR": ('bool "foo bar"',),
@@ -121,18 +144,30 @@ _OPTS = {
     "M": ('int "m"', "default 2"),
     "ADDED": ('int "added"', "default 3"),
     "P_RM": ('bool "p_rm"', "default y"),
+    # a string whose value is the TEXT n (not the bool n): build-visible whenever B is on
+    "T": ('string "t (n/e/o)"', 'default "n"', "depends on B"),
+    # text world
+    "G": ('bool "g"', "default y"),
+    "T:g": ('string "t (n/e/o)"', 'default "n"', "depends on G"),
+    "K": ('int "k"', "default 1"),
 }
 
 # version -> ordered option keys
 _VERSIONS = {
-    "base": ["FOO_BAR", "B", "N", "S", "U", "NEWP", "NEWI", "M", "P_RM"],
+    "base": ["FOO_BAR", "B", "N", "S", "U", "NEWP", "NEWI", "M", "P_RM", "T"],
     # option added (with an alias), option with alias removed, option without alias removed, option retyped
-    "all": ["FOO_BAR", "B", "N:string", "S", "U", "NEWI", "M", "ADDED"],
-    "add": ["FOO_BAR", "B", "N", "S", "U", "NEWP", "NEWI", "M", "P_RM", "ADDED"],
-    "rm_alias": ["FOO_BAR", "B", "N", "S", "U", "P_RM"],  # NEWP (plain alias, bool), M (plain alias, int), NEWI (inverted alias) removed
-    "rm_plain": ["FOO_BAR", "B", "N", "S", "NEWP", "NEWI", "M"],  # U and P_RM removed (no aliases)
-    "retype": ["FOO_BAR", "B", "N:string", "S", "U", "NEWP", "NEWI", "M", "P_RM"],
+    "all": ["FOO_BAR", "B", "N:string", "S", "U", "NEWI", "M", "ADDED", "T"],
+    "add": ["FOO_BAR", "B", "N", "S", "U", "NEWP", "NEWI", "M", "P_RM", "T", "ADDED"],
+    # NEWP (plain alias, bool), M (plain alias, int), NEWI (inverted alias), T (plain alias, string with the text n) removed
+    "rm_alias": ["FOO_BAR", "B", "N", "S", "U", "P_RM"],
+    "rm_plain": ["FOO_BAR", "B", "N", "S", "NEWP", "NEWI", "M", "T"],  # U and P_RM removed (no aliases)
+    "retype": ["FOO_BAR", "B", "N:string", "S", "U", "NEWP", "NEWI", "M", "P_RM", "T"],
+    # text world: with / without the string option
+    "txt": ["G", "T:g", "K"],
+    "txt_rm": ["G", "K"],
 }
+WORLD_VERSIONS = {"main": ["base", "all", "add", "rm_alias", "rm_plain", "retype"], "text": ["txt", "txt_rm"]}
+WORLD_RENAMES = {"main": (RENAMES, ALIASES), "text": (RENAMES_TEXT, ALIASES_TEXT)}
 
 
 def tree_text(ver: str) -> str:
@@ -167,19 +202,30 @@ CONFIGS_QUICK = [
     {"P_RM": "n"},
 ]
 CONFIGS_WIDE = CONFIGS_QUICK  # index space shared by all tiers
+# text world: T visible as n (default) / hidden / visible as y / empty / x / m; hidden with a pending user value
+CONFIGS_TEXT = [{}, {"G": "n"}, {"T": "y"}, {"T": ""}, {"T": "x"}, {"T": "m"}]
+CONFIGS = {"main": CONFIGS_WIDE, "text": CONFIGS_TEXT}
 
 QUICK_STATES = [(v, c) for v in ("base", "all") for c in range(len(CONFIGS_QUICK))]
 # thorough, length 3: the quick states plus every single-change tree version under three configurations
 WIDE_STATES = QUICK_STATES + [(v, c) for v in ("add", "rm_alias", "rm_plain", "retype") for c in (0, 3, 5)]
 # thorough, length 4: both trees, five configurations
 LONG_STATES = [(v, c) for v in ("base", "all") for c in (0, 1, 2, 4, 5)]
-ALPHABETS = {"quick": QUICK_STATES, "wide": WIDE_STATES, "long": LONG_STATES}
+TEXT_QUICK_STATES = [("txt", c) for c in range(5)] + [("txt_rm", 0)]
+TEXT_WIDE_STATES = TEXT_QUICK_STATES + [("txt", 5), ("txt_rm", 1)]
+TEXT_LONG_STATES = [("txt", 0), ("txt", 1), ("txt", 2), ("txt", 3), ("txt_rm", 0)]
+# alphabet -> (world, states)
+ALPHABETS = {
+    "quick": ("main", QUICK_STATES), "wide": ("main", WIDE_STATES), "long": ("main", LONG_STATES),
+    "text_quick": ("text", TEXT_QUICK_STATES), "text_wide": ("text", TEXT_WIDE_STATES), "text_long": ("text", TEXT_LONG_STATES),
+}
 
 
 # sessions (one instance, several syncs): tree versions a new instance may have, configuration indices, number of syncs
 SESSIONS = {
-    "quick": [(["base"], [0, 1, 3, 4], 3)],
-    "thorough": [(["base", "all"], list(range(len(CONFIGS_QUICK))), 3), (["base"], [0, 1, 4], 4)],
+    "quick": [(["base"], [0, 1, 3, 4], 3, "main"), (["txt"], [0, 1, 2, 3], 3, "text")],
+    "thorough": [(["base", "all"], list(range(len(CONFIGS_QUICK))), 3, "main"), (["base"], [0, 1, 4], 4, "main"),
+                 (["txt", "txt_rm"], list(range(len(CONFIGS_TEXT))), 3, "text")],
 }
 TABLE_LINES = {"quick": 3, "thorough": 4}
 
@@ -190,12 +236,18 @@ def items(tier: str, seed: int):
     if tier == "quick":
         for h in itertools.product(QUICK_STATES, repeat=3):
             out.append({"history": list(h), "alphabet": "quick"})
+        for h in itertools.product(TEXT_QUICK_STATES, repeat=3):
+            out.append({"history": list(h), "alphabet": "text_quick"})
     else:
         for h in itertools.product(WIDE_STATES, repeat=3):  # superset of the quick tier
             out.append({"history": list(h), "alphabet": "wide"})
         for h in itertools.product(LONG_STATES, repeat=4):
             out.append({"history": list(h), "alphabet": "long"})
-    for k, (vers, cfgs, length) in enumerate(SESSIONS[t]):
+        for h in itertools.product(TEXT_WIDE_STATES, repeat=3):  # superset of the quick tier
+            out.append({"history": list(h), "alphabet": "text_wide"})
+        for h in itertools.product(TEXT_LONG_STATES, repeat=4):
+            out.append({"history": list(h), "alphabet": "text_long"})
+    for k, (vers, cfgs, length, _world_name) in enumerate(SESSIONS[t]):
         for pre in session_prefixes(vers, cfgs):
             out.append({"kind": "sessions", "prefix": pre, "space": [t, k]})
     for lines in rename_tables(TABLE_LINES[t]):
@@ -324,7 +376,15 @@ class World:
             tree = "same_definition"
         a, b = (prev or {}).get(target), cur.get(target)
         vc = "unchanged" if a == b else "appeared" if a is None else "disappeared" if b is None else "value"
-        return {"role": role, "type": tc or tp or "?", "value_change": vc, "tree_change": tree}
+        out = {"role": role, "type": tc or tp or "?", "value_change": vc, "tree_change": tree}
+        # a non-bool value whose text looks like a tristate / is empty: named in the signature (new value first)
+        look = [_LOOKALIKE[x] for x in (b, a) if x in _LOOKALIKE]
+        if look and out["type"] != "bool":
+            out["text"] = look[0]
+        return out
+
+
+_LOOKALIKE = {'"n"': "n", '"y"': "y", '"m"': "m", '""': "empty"}
 
 
 def observe(d: str) -> List[str]:
@@ -789,8 +849,10 @@ class Session:
 # --------------------------------------------------------------------------------------------------
 
 TABLE_OLD = ("OLDA", "OLD_B", "OLDC")
-TABLE_TARGETS = (("NEWP", False), ("NEWP", True), ("M", False))  # bool, bool inverted, int -- all removed by tree "rm_alias"
-# fresh instance per sync: NEWP appears; M changes; both options are removed from the tree; M comes back with another value
+# bool, bool inverted, int, string with the text n -- all removed by tree "rm_alias"
+TABLE_TARGETS = (("NEWP", False), ("NEWP", True), ("M", False), ("T", False))
+# fresh instance per sync: first sync (T = "n" appears); NEWP appears; M changes; all targets are removed from the tree; M comes back with
+# another value and T comes back as "n"
 TABLE_HISTORY = [("base", {}), ("base", {"NEWP": "y"}), ("base", {"NEWP": "y", "M": "9"}), ("rm_alias", {}), ("base", {"M": "9"})]
 
 
@@ -866,29 +928,29 @@ def run_table(lines: List[Tuple[str, str, bool]], split: int, r: common.Result) 
 
 # --------------------------------------------------------------------------------------------------
 
-_world: Optional[World] = None
+_worlds: Dict[str, World] = {}
 
 
-def world() -> World:
-    global _world
-    if _world is None:
-        _world = World({v: tree_files(v) for v in _VERSIONS}, ALIASES)
-    return _world
+def world(name: str = "main") -> World:
+    if name not in _worlds:
+        renames, aliases = WORLD_RENAMES[name]
+        _worlds[name] = World({v: tree_files(v, [renames]) for v in WORLD_VERSIONS[name]}, aliases)
+    return _worlds[name]
 
 
 def run_item(item) -> common.Result:
     r = common.Result()
     r.programs = 1
-    w = world()
     kind = item.get("kind", "history")
     if kind == "sessions":
-        vers, cfgs, length = SESSIONS[item["space"][0]][item["space"][1]]
+        vers, cfgs, length, wname = SESSIONS[item["space"][0]][item["space"][1]]
+        w = world(wname)
         sample = None
         for steps in session_suffixes(item["prefix"], length, vers, cfgs):
-            steps = [dict(s, cfg=CONFIGS_WIDE[s["cfg"]]) for s in steps]
+            steps = [dict(s, cfg=CONFIGS[wname][s["cfg"]]) for s in steps]
             Session(w, steps, r).run()
             sample = steps
-        r.sample = {"one_instance_session": sample, "rename_table": RENAMES}
+        r.sample = {"one_instance_session": sample, "rename_table": WORLD_RENAMES[wname][0]}
         return r
     if kind == "table":
         lines = [tuple(l) for l in item["lines"]]
@@ -900,14 +962,16 @@ def run_item(item) -> common.Result:
             "history": [[v, cfg] for v, cfg in TABLE_HISTORY],
         }
         return r
-    hist = [(v, CONFIGS_WIDE[c]) for v, c in item["history"]]
+    wname, states = ALPHABETS[item["alphabet"]]
+    w = world(wname)
+    hist = [(v, CONFIGS[wname][c]) for v, c in item["history"]]
     run = Run(w, hist, r)
     run.crash_free()
-    run.all_crashes(alphabet=[(v, CONFIGS_WIDE[c]) for v, c in ALPHABETS[item["alphabet"]]])
+    run.all_crashes(alphabet=[(v, CONFIGS[wname][c]) for v, c in states])
     r.sample = {
         "history": [[v, cfg] for v, cfg in hist],
         "tree_of_first_state": w.versions[hist[0][0]]["Kconfig"],
-        "rename_table": RENAMES,
+        "rename_table": WORLD_RENAMES[wname][0],
         "operations_of_first_sync": [(o["op"], o["path"]) for o in run.logs[0]] if run.logs else [],
         "crash_points_per_sync": [len(faultfs.crash_points(l)) for l in run.logs],
     }
